@@ -190,6 +190,12 @@ func (p *parser) parseStatement() ast.Statement {
 func (p *parser) parseReturnStatement(t string) *ast.ReturnStatement {
 	stmt := &ast.ReturnStatement{Type: t, TokenAble: ast.TokenAble{Token: p.curToken}}
 
+	if p.curTokenIs(token.RETURN) && p.peekTokenIs(token.RBRACE) {
+		// a return without a value that ends its block: "{ return }" is
+		// the same as "{ return %><% }"
+		return stmt
+	}
+
 	p.nextToken()
 	stmt.ReturnValue = p.parseExpression(LOWEST)
 
